@@ -676,6 +676,10 @@ fn check_reload_in(dir: &Path, c: &ReloadCase, obs: &mut Obs) -> CaseResult {
 #[derive(Serialize, Deserialize, Debug, Clone)]
 pub struct Smoke {
     pub dir: String,
+    /// the configured path is a symbolic link; new versions are published by re-pointing it atomically
+    /// (`ln -sfn`, ConfigMap-style) instead of editing the file in place
+    #[serde(default)]
+    pub symlink: bool,
 }
 
 pub fn smoke_child(c: &Smoke, obs: &mut Obs) -> CaseResult {
@@ -686,7 +690,23 @@ pub fn smoke_child(c: &Smoke, obs: &mut Obs) -> CaseResult {
     let mut des = Deserializers::default();
     des.insert("probe", ProbeDeserializer { sink: sink.clone(), built: built.clone() });
     let text = |v: u8| variant_text(v, None, false).replace("appenders:\n  p:", "refresh_rate: 20ms\nappenders:\n  p:");
-    std::fs::write(&path, text(0)).unwrap();
+    let version = std::cell::Cell::new(0u32);
+    let publish = |content: &str| {
+        if c.symlink {
+            // a new file, then the link is swapped over to it in one rename
+            let k = version.get() + 1;
+            version.set(k);
+            let target = format!("published-{}.yml", k);
+            std::fs::write(dir.join(&target), content).unwrap();
+            let tmp_link = dir.join("log4rs.yml.new");
+            let _ = std::fs::remove_file(&tmp_link);
+            std::os::unix::fs::symlink(&target, &tmp_link).unwrap();
+            std::fs::rename(&tmp_link, &path).unwrap();
+        } else {
+            std::fs::write(&path, content).unwrap();
+        }
+    };
+    publish(&text(0));
     log4rs::init_file(&path, des).map_err(|e| Failure { sig: "C15:init_file".into(), msg: e.to_string() })?;
     let tag_now = |sink: &Arc<Mutex<Vec<(String, String)>>>| -> Option<String> {
         sink.lock().unwrap().clear();
@@ -694,8 +714,9 @@ pub fn smoke_child(c: &Smoke, obs: &mut Obs) -> CaseResult {
         let t = sink.lock().unwrap().first().map(|x| x.0.clone());
         t
     };
+    // (the file asks for a poll every 20 ms: 30 s are 1500 polling periods)
     let wait_for = |want: &str| -> bool {
-        let deadline = std::time::Instant::now() + Duration::from_secs(5);
+        let deadline = std::time::Instant::now() + Duration::from_secs(30);
         while std::time::Instant::now() < deadline {
             if tag_now(&sink).as_deref() == Some(want) {
                 return true;
@@ -706,16 +727,16 @@ pub fn smoke_child(c: &Smoke, obs: &mut Obs) -> CaseResult {
     };
     ensure!(tag_now(&sink).as_deref() == Some("v0"), "C15:init_file", "initial configuration not active");
     std::thread::sleep(Duration::from_millis(30));
-    std::fs::write(&path, text(1)).unwrap();
+    publish(&text(1));
     if !wait_for("v1") {
-        return fail("INCONCLUSIVE", "the reloader thread did not apply a changed file within 5 s");
+        return fail(if c.symlink { "C15:valid-change-not-applied:symlink-swap" } else { "C15:valid-change-not-applied:reloader-thread" }, format!("the reloader started by init_file (refresh_rate 20 ms) did not apply a valid new version of the file within 30 s{}", if c.symlink { " (the configured path is a symbolic link that was re-pointed to the new version)" } else { "" }));
     }
-    std::fs::write(&path, "{{{ garbage").unwrap();
+    publish("{{{ garbage");
     std::thread::sleep(Duration::from_millis(120));
     ensure!(tag_now(&sink).as_deref() == Some("v1"), "C15:last-good-lost", "after a syntax error the last good configuration is no longer active");
     std::fs::remove_file(&path).unwrap();
     std::thread::sleep(Duration::from_millis(80));
-    std::fs::write(&path, text(4)).unwrap();
+    publish(&text(4));
     if !wait_for("v4") {
         return fail("C15:stopped-polling", "after an unparsable and then a deleted file the reloader no longer applies valid changes (it must keep polling)");
     }
@@ -723,9 +744,9 @@ pub fn smoke_child(c: &Smoke, obs: &mut Obs) -> CaseResult {
     Ok(())
 }
 
-pub fn check_smoke(tmp: &Path, obs: &mut Obs) -> CaseResult {
+pub fn check_smoke(tmp: &Path, symlink: bool, obs: &mut Obs) -> CaseResult {
     let dir = scratch(tmp, "c15smoke");
-    let out = call_child(tmp, "c15smoke", &Smoke { dir: dir.display().to_string() }, &[], Duration::from_secs(60));
+    let out = call_child(tmp, "c15smoke", &Smoke { dir: dir.display().to_string(), symlink }, &[], Duration::from_secs(150));
     let _ = std::fs::remove_dir_all(&dir);
     if let Some(f) = &out.failure {
         if f.sig == "INCONCLUSIVE" {
@@ -761,7 +782,11 @@ pub fn run(run: &Run) {
             run.exhaustive("re-entrant set_config from inside append at every fan-out position 0..m-1 for old fan-out 1-5 x new fan-out 1-5 x 4 declaration orders");
         }
         let t3 = tmp.clone();
-        run.eval_one("reloader-smoke", &0u8, &move |_: &u8, o: &mut Obs| check_smoke(&t3, o));
+        run.eval_one("reloader-smoke", &0u8, &move |k: &u8, o: &mut Obs| check_smoke(&t3, *k == 1, o));
+    }
+    if run.worker.0 == 1 % run.worker.1 {
+        let t3 = tmp.clone();
+        run.eval_one("reloader-smoke", &1u8, &move |k: &u8, o: &mut Obs| check_smoke(&t3, *k == 1, o));
     }
     run.search("swap", run.tier.pick(200, 10_000), plan_strategy(), &check_plan);
     let t1 = tmp.clone();
@@ -782,7 +807,7 @@ pub fn replay(part: &str, case: serde_json::Value) -> Option<CaseResult> {
         "reloader-smoke" => {
             let tmp = std::env::temp_dir().join(format!("lv-replay-{}", std::process::id()));
             std::fs::create_dir_all(&tmp).ok()?;
-            let r = check_smoke(&tmp, &mut Obs::default());
+            let r = check_smoke(&tmp, case.as_u64() == Some(1), &mut Obs::default());
             let _ = std::fs::remove_dir_all(&tmp);
             Some(r)
         }
